@@ -27,4 +27,27 @@ theorem writer_roundtrip (f : Fields) (h : f.WF) :
   · exact mode6_roundtrip E P x hE hP hx
   · exact mode7_roundtrip part E P x hpart hE hP hx
 
+/-- whatever is written, the stream state stays a `u128` -/
+theorem writeAll_lt (fs : List (Nat × Nat)) : finish (writeAll fs) < 2 ^ 128 := by
+  unfold finish writeAll
+  have : ∀ (fs : List (Nat × Nat)) (st : Nat × Nat), st.1 < 2 ^ 128 →
+      (fs.foldl (fun st f => writeU64 st f.1 f.2) st).1 < 2 ^ 128 := by
+    intro fs
+    induction fs with
+    | nil => intro st h; exact h
+    | cons f fs ih =>
+      intro st h
+      rw [List.foldl_cons]
+      apply ih
+      simp only [writeU64]
+      exact Nat.or_lt_two_pow h (by rw [U128_eq]; exact Nat.mod_lt _ (Nat.two_pow_pos 128))
+  exact this fs (0, 0) (by decide)
+
+theorem write_lt (f : Fields) : write f < 2 ^ 128 := by
+  unfold write
+  repeat' split
+  all_goals first
+    | exact writeAll_lt _
+    | decide
+
 end Dds.Enc7
